@@ -21,7 +21,7 @@ CHECKS = {
  "C09": ("model_checking", "seqx+loomx", "explicit-state BFS (unwrap oracle) + loom exploration of racing unwrap/drop programs",
          "History half: try_unwrap/try_unique/TryFrom/into_inner/unwrap_or_clone in every state: value out (intact, destructor not run, block freed) iff sole owner, else the same handle back. Schedule half: in every loom execution the value is moved out to at most one thread (which then writes to it: the write must not race with anyone) or destroyed exactly once, and its memory is released once.",
          "as C01 and C02"),
- "C05": ("exploration", "gridx", "exhaustive enumeration of the (header shape x element shape x length x constructor x release path) grid on the real crate under a logging allocator; overflow boundaries in child processes",
+ "C05": ("exploration", "gridx+m32", "exhaustive enumeration of the (header shape x element shape x length x constructor x release path) grid on the real crate under a logging allocator; overflow boundaries in child processes; the overflow and layout grids again on a 32-bit target (i686, executed by Miri)",
          "Every cell of the shape matrix (21 (size,align) points incl. zero-sized and over-aligned, all ordered pairs in the thorough tier) x length x constructor x release path is executed on the real crate; the arena allocator records each request and return: request >= count + payload by the compiler's own layout rules, payload addresses aligned and inside the block, exactly one return of that block with the requested (size, align), no write outside it. Length-only constructors and lying ExactSizeIterators are driven to every overflow boundary in child processes.",
          "shape points and lengths as listed in the evidence rule; arena allocator trusted; exhaustive over the grid, not over all types"),
  "C06": ("exploration", "gridx", "exhaustive enumeration of constructor x length x capacity slack x size_hint regime x element/header class with identity-tracked elements",
@@ -70,6 +70,7 @@ m = {
   {"name": "seqx", "path": "harness/seqx", "serves_properties": ["C01", "C03", "C04", "C08", "C09", "C10", "C11"], "kind_free_text": "explicit-state BFS over handle histories; each transition re-executes the history on the real crate under the arena allocator and compares with a reference model"},
   {"name": "gridx", "path": "harness/gridx", "serves_properties": ["C03", "C08", "C05", "C06", "C07", "C10", "C11", "C12", "C14", "C15", "C16", "C17"], "kind_free_text": "exhaustive enumeration of finite shape / input / fault grids, each cell executed on the real crate under the arena allocator"},
   {"name": "typex", "path": "lib/typex.py", "serves_properties": ["C13"], "kind_free_text": "generator of client probe crates + cargo check driver; rustc decides each cell"},
+  {"name": "m32", "path": "harness32", "serves_properties": ["C05"], "kind_free_text": "the C05 overflow-boundary and layout grids on the real crate compiled for i686 and executed by the Miri interpreter (usize = 32 bits), 16 shards"},
   {"name": "loomx", "path": "harness/loomx", "serves_properties": ["C02", "C03", "C08", "C09", "C17"], "kind_free_text": "loom 0.7.2 stateless exploration of thread programs on the real crate through the cfg(triomphe_verif) atomic shim"},
  ],
  "checks": [],
